@@ -32,6 +32,8 @@ def check(chk, fx):
     c02.once(chk, fx)
     c02.lock(chk, fx)
     lexrules.lenw(chk, fx)
+    from .. import ownrules
+    ownrules.bufref(chk, fx, 6)       # views into a copied buffer dangle
     from .. import width
     width.check(chk, fx, classes=("LEN", "DEPTH"), minimum=8)
     idxrule.report(chk, fx, lambda q: q.startswith("ctpg::"), "whole header", 40)
